@@ -497,7 +497,7 @@ func (r *runnableStep) Lifecycle(input map[string]any) (result step.Lifecycle[st
 				Outputs: map[string]*schema.StepOutputSchema{
 					"error": {
 						SchemaValue: schema.NewScopeSchema(
-							schema.NewStructMappedObjectSchema[DeployFailed](
+							schema.NewObjectSchema(
 								"DeployError",
 								map[string]*schema.PropertySchema{
 									errorStr: schema.NewPropertySchema(
@@ -603,7 +603,7 @@ func (r *runnableStep) Lifecycle(input map[string]any) (result step.Lifecycle[st
 				Outputs: map[string]*schema.StepOutputSchema{
 					"error": {
 						SchemaValue: schema.NewScopeSchema(
-							schema.NewStructMappedObjectSchema[Crashed](
+							schema.NewObjectSchema(
 								"Crashed",
 								map[string]*schema.PropertySchema{
 									"output": schema.NewPropertySchema(
